@@ -70,7 +70,7 @@ type Obs struct {
 	Hist                          HObs     `json:"hist"`
 	// the chain's Update / Delete with records named by key: the WHERE text of the statement and the
 	// rows that changed, with and without the marked copies
-	UpdWhere, DelWhere     string
+	UpdWhere, DelWhere       string
 	KUpd, NKUpd, KDel, NKDel []int64
 }
 
